@@ -658,7 +658,11 @@ fn exec_inner(w: &[&str], obs: &mut Obs) -> Option<String> {
                 }
                 if outcome == "end" && !matches!(cap, CapW::Slice) && deliv != d.len() && fits { obs.violation("clean-end-before-all-delivered", &case(), ""); }
                 obs.count(&format!("{}:{}{}{}", w[0], outcome, if fits { "" } else { ":small" }, if faulty { ":faulty" } else { "" }));
-                format!("{} {} {} {}", join(&toks), outcome, pos, deliv)
+                // `delivered` is pure accounting (it depends on how much each fill asks for, i.e. on the
+                // buffer's compaction policy): printed as a wildcard; `position <= delivered` and
+                // "clean end only after everything was delivered" stay as oracles above
+                let _ = deliv;
+                format!("{} {} {} dlv:?", join(&toks), outcome, pos)
             });
             Some(line)
         }
@@ -702,7 +706,7 @@ fn exec_inner(w: &[&str], obs: &mut Obs) -> Option<String> {
                     };
                     log.push(format!("{}@{}", s, pos));
                 }
-                format!("{} {}", join(&log), st().0)
+                format!("{} dlv:?", join(&log))
             });
             Some(line)
         }
@@ -730,7 +734,7 @@ fn exec_inner(w: &[&str], obs: &mut Obs) -> Option<String> {
                     }
                     if rd.pos() != at { obs.violation("read-bytes-position", &case(), ""); }
                 }
-                format!("{} {}", join(&log), st().0)
+                format!("{} dlv:?", join(&log))
             });
             Some(line)
         }
